@@ -1514,6 +1514,21 @@ func main() {
 		return
 	}
 
+	// 0. directed history (every run, every seed): proofs on the empty trie, before the
+	// first update and after the trie became empty again (known finding
+	// prove-empty-trie-absence-not-verifiable), and proofs of presence / absence around it.
+	{
+		e := h.newExec("directed/empty-trie-proof")
+		e.shouldFlush = func(int) bool { return false }
+		e.alterProof = func() bool { return true }
+		e.askSpec = func() bool { return true }
+		for _, t := range strings.Fields("p:0x01 h u:0x01:0x02 p:0x01 p:0x0102 p:0x c d:0x01 p:0x01 h x") {
+			e.step(t)
+		}
+		e.nontrivial = true
+		e.finish(opNames)
+	}
+
 	// 7. Keccak validation
 	for i, n := range []int{0, 1, 31, 32, 33, 55, 135, 136, 137, 272, 300, 532} {
 		b := c.Rng.Bytes(n)
